@@ -3,6 +3,7 @@ from checks.common import Ctx
 from sa.report import Check
 from sa.rules import backend as B
 from sa.rules import validators as V
+from sa.rules import ranges as RG
 
 
 def main(tier):
@@ -16,11 +17,15 @@ def main(tier):
             "enum_case spelling has a conversion registered from SHOUTY_CASE (R-ENUMCASE); enumerator values reach the "
             "header only through _render_integer, which handles the 64-bit edge values (R-RENDERINT); EnumView "
             "instantiates for every underlying type and width (R-WIDTHS); enum values are required to be numeric "
-            "(R-POSCHECK). Not decided: name/value maps for arbitrary enums."))
+            "(R-POSCHECK); enum values are admitted exactly within the range of a signed/unsigned integer of maximum_bits bits, "
+            "maximum_bits within 1..64, and the C++ underlying type is the first fixed-width type with at least maximum_bits "
+            "bits (R-BOUNDARY, R-INTRANGE). Not decided: name/value maps for arbitrary enums."))
     r = cx.repo
     chk.run("R-CASEDEDUP", B.casededup, r, floor=3)
     chk.run("R-ENUMCASE", B.enumcase, r, floor=2)
     chk.run("R-RENDERINT", B.renderint, r, floor=100)
     chk.run("R-WIDTHS", lambda: cx.widths, floor=3000)
     chk.run("R-POSCHECK", V.poscheck, r, cx.schema, cx.sites, floor=9)
+    chk.run("R-BOUNDARY", RG.boundary, r, floor=130)
+    chk.run("R-INTRANGE", RG.intrange, r, floor=190)
     return chk.finish()
